@@ -39,7 +39,7 @@ ASSUME_COMMON = [
 ]
 
 
-QUICK_TRIVIA = ["ws2", "cmn", "both", "bothn1", "cm", "cmb", "bothb", "cmstack", "bothstack", "wsn", "cmr"]
+QUICK_TRIVIA = ["ws2", "cmn", "both", "bothn1", "cm", "cmb", "bothb", "cmstack", "bothstack", "wsn", "cmr", "cmrf", "bothm"]
 
 
 def ref_ok(member) -> bool:
@@ -58,7 +58,7 @@ def select_members(prop: str, tier: str, seed: int):
         return rot.index(triv) in (first, (first + 1 + ki % (n - 1)) % n)
 
     if tier == "quick":
-        # Quick: every (context, kind) pair without trivia, plus two of eleven trivia configurations per
+        # Quick: every (context, kind) pair without trivia, plus two of thirteen trivia configurations per
         # pair, rotated so that every (kind, configuration) and every (context, configuration) pair occurs
         # several times (a pairwise covering of context x kind x trivia).  Thorough: the full product.
         mem = family.family(["none"] + rot, pick=pick)
